@@ -966,6 +966,18 @@ func (env *SpecEnv) targets(e Expr, src string) []*assignTarget {
 		if g, ok := env.fx.eng.CS.GVars[x.Name]; ok {
 			return []*assignTarget{{kind: "ghost", key: "G|" + g.Name, src: src}}
 		}
+		for _, fv := range env.freeVars {
+			if fv.name == x.Name {
+				if pt, ok := fv.t.Underlying().(*types.Pointer); ok && fv.v != nil {
+					l := env.st.objLoc(fv.v.S, pt.Elem())
+					kind := "obj"
+					if l.Mem {
+						kind = "cell"
+					}
+					return []*assignTarget{{kind: kind, loc: l, key: leafKey(l, ""), ref: fv.v.S, src: src}}
+				}
+			}
+		}
 		if x.Name == "timers" {
 			return []*assignTarget{{kind: "ghost", key: "T|dur", src: src}, {kind: "ghost", key: "T|armed", src: src}, {kind: "ghost", key: "T|fn", src: src}}
 		}
